@@ -7,6 +7,7 @@ import BV.C07.Lemmas
 import BV.C07.ScriptLemmas
 import BV.C07.Commit
 import BV.C07.CommitLegacy
+import BV.C07.CacheKey
 import BV.C07.CacheLemmas
 import BV.Generated.C07
 namespace BV.C07
@@ -161,6 +162,25 @@ theorem hashcache_laws (c : HashCache) (txid t : Bytes) (s : SigHashes) :
     (c.purge txid).get txid = none :=
   ⟨CacheLemmas.hashCache_get_add c txid s, CacheLemmas.hashCache_get_add_ne c txid t s,
    CacheLemmas.hashCache_get_purge c txid⟩
+
+/-- HashCache is keyed by txid = double-SHA256 of the witness-free serialization. Two well-formed
+transactions with the same txid (barring a collision of that hash: `H_inj`) have the same
+midstates -- the witnesses may differ -- so an entry found under a txid is the right one. -/
+theorem hashcache_key_sound (H : Bytes → Bytes) (fetch : OutPoint → TxOut) (t₁ t₂ : Tx)
+    (w₁ : t₁.wf) (w₂ : t₂.wf)
+    (H_inj : dH H (txSerNoWitness t₁) = dH H (txSerNoWitness t₂) →
+      txSerNoWitness t₁ = txSerNoWitness t₂)
+    (htxid : dH H (txSerNoWitness t₁) = dH H (txSerNoWitness t₂)) :
+    newTxSigHashes H t₁ fetch = newTxSigHashes H t₂ fetch :=
+  Commit.newTxSigHashes_of_same_txid_preimage H fetch t₁ t₂ w₁ w₂ (H_inj htxid)
+
+/-- the witness-free serialization (hence the txid preimage) is injective on version, inputs
+(outpoint, signature script, sequence), outputs and lock time -/
+theorem txSerNoWitness_injective (t₁ t₂ : Tx) (w₁ : t₁.wf) (w₂ : t₂.wf)
+    (h : txSerNoWitness t₁ = txSerNoWitness t₂) :
+    t₁.version = t₂.version ∧ t₁.ins.map Commit.inTriple = t₂.ins.map Commit.inTriple ∧
+      t₁.outs = t₂.outs ∧ t₁.lockTime = t₂.lockTime :=
+  Commit.txSerNoWitness_inj t₁ t₂ w₁ w₂ h
 
 /-! ### commits to exactly the specified data -/
 
